@@ -14,6 +14,7 @@ import numpy as np  # noqa: E402
 
 from vmon import core  # noqa: E402
 from vmon.monitors import coverage, install as mi  # noqa: E402
+from vmon.props import common as cm  # noqa: E402
 
 
 def main():
@@ -30,6 +31,7 @@ def main():
     for case in job["cases"]:
         mi.STATE.firings = []
         t0 = time.time()
+        style = cm.set_style(case.get("cid", ""))
         try:
             with warnings.catch_warnings():
                 warnings.simplefilter("ignore")
@@ -39,6 +41,8 @@ def main():
         except Exception:
             r = {"harness_error": traceback.format_exc()[-2000:]}
         r["cid"] = case["cid"]
+        if isinstance(r.get("classes"), list):
+            r["classes"] = r["classes"] + ["call-style:" + style]
         r["wall"] = round(time.time() - t0, 3)
         # firings of always-on monitors: owned ones become violations, others are recorded
         own, foreign = [], []
@@ -58,6 +62,8 @@ def main():
     if mi.STATE.boys:
         b = mi.STATE.boys
         lists["boys"] = [[max(x[0] for x in b), min(x[1] for x in b), max(x[2] for x in b), len(b)]]
+    for k_, v_ in cm.STYLE["counts"].items():
+        mi.STATE.counts["call-style:" + k_] = mi.STATE.counts.get("call-style:" + k_, 0) + v_
     if hasattr(mod, "worker_lists"):
         lists.update(mod.worker_lists())
     out = {"results": results, "counts": mi.STATE.counts, "cov": sorted(coverage.HITS), "lists": lists,
